@@ -440,7 +440,6 @@ class Gen:
         # main statements
         stmts = []                            # (ns, stmt)
         first = {'t': 'fj', 'f': rng.choice([None, 0, 5]), 'j': rng.choice([None, ('n', '$')])}
-        top = Scope(self, [])
         n_main = rng.choice([2, 3, 4, 5, 6, 8])
 
         def new_global(ns):
@@ -512,7 +511,25 @@ class Gen:
         if r > 0.1:
             return
         calls = [i for i, u in enumerate(prog.units) if u[0] == 'stmt' and u[2]['t'] == 'call']
-        kind = rng.choice(['unknown', 'arity', 'depth', 'depth0', 'swap', 'extern-twice', 'rep-count'])
+        kind = rng.choice(['unknown', 'arity', 'depth', 'depth0', 'swap', 'extern-twice', 'rep-count', 'layout'])
+        if kind == 'layout':
+            # statements the preprocessor itself rejects while laying out addresses (the inlined program is rejected alike)
+            w = prog.w
+            tail = rng.choice([
+                [{'t': 'pad', 'e': 0}],
+                [{'t': 'reserve', 'e': w}, {'t': 'pad', 'e': 2}],
+                [{'t': 'segment', 'e': 5}],
+                [{'t': 'reserve', 'e': 3}],
+                [{'t': 'pad', 'e': ('n', 'never_declared')}],
+                [{'t': 'segment', 'e': ('op', '+', [('n', 'never_declared'), 1])}],
+                [{'t': 'reserve', 'e': ('n', 'never_declared')}],
+                [{'t': 'segment', 'e': (1 << w) - 4 * w}, {'t': 'fj', 'f': None, 'j': None}, {'t': 'pad', 'e': 5 if w == 32 else 3}],
+            ])
+            for st in tail:
+                prog.units.append(('stmt', [], st))
+            prog.broken = kind
+            prog.tags.add('broken:layout')
+            return
         if kind == 'unknown':
             prog.units.insert(rng.randrange(1, len(prog.units) + 1),
                               ('stmt', [], {'t': 'call', 'name': 'nosuch', 'args': [1]}))
